@@ -37,6 +37,7 @@ ValOf(cur) == IF cur.tag = "num" THEN [ret |-> "num", v |-> "", n |-> cur.n]
               ELSE [ret |-> "val", v |-> cur.s, n |-> 0]
 R(reg, ret, v, n) == [reg |-> reg, ret |-> ret, v |-> v, n |-> n]
 
+IntOp(e) == IF "int" \in DOMAIN e THEN e.int ELSE FALSE
 Apply(e, cur, p, a, b) ==
   CASE e.op = "put" ->
          IF e.nx /\ p THEN R(cur, "found", "", 0)
@@ -52,6 +53,9 @@ Apply(e, cur, p, a, b) ==
     \* Incr / Decr / IncrByFloat (delta in fixed-point units): expiry is kept
     \* (the implementation re-installs the remaining ttl: the deadline may move by at most the
     \*  duration of the call itself, e.dur)
+    \* an integer operation (Incr / Decr, marked `int` where a key sees both kinds: numbers are in units of 1/1024) on a
+    \* stored number that is not an integer is refused and changes nothing - it does not restart from zero
+    [] e.op = "incr" /\ IntOp(e) /\ p /\ cur.tag = "num" /\ cur.n % 1024 # 0 -> R(cur, "notint", "", 0)
     [] e.op = "incr" -> LET base == IF p /\ cur.tag = "num" THEN cur.n ELSE 0
                             x == IF p THEN [lo |-> cur.lo, hi |-> IF cur.hi = INF THEN INF ELSE cur.hi + e.dur]
                                  ELSE Exp(Dttl(e), FALSE, a, b) IN
